@@ -57,6 +57,7 @@ func runC05(c *core.Ctx, r *core.Reporter) {
 	c05int64(c, r)
 	c05canon(c, r)
 	c05bigarm(c, r)
+	c05twos(c, r)
 }
 
 // flowsToComparison: the value, possibly after further arithmetic, is an operand of a comparison.
